@@ -145,6 +145,22 @@ CLAIMED["C13"] = dict(
          "byte-for-byte equality after the round trip through the table format (C01)."),
    design="4/C13", technique="contract-based deductive verification: expiry predicate as spec function, iff loop-step invariant")
 
+CLAIMED["C14"] = dict(
+   text=("Deductive proof of the block-level clauses of the format on the real writer code (the table-level clauses are listed as not decided): the block size "
+         "accepted by NewWriter fits the 3-byte block-length field; putU24 stores exactly its argument (which must fit 24 bits at every call site); putVarInt emits 1..10 bytes, "
+         "continuation bits on all but the last; encodeKey marks an entry as restart exactly when it shares no prefix with its predecessor and always after an "
+         "empty predecessor; the block writer's representation invariant (entry area after the 4-byte header, room reserved for the restart table and its count, at most "
+         "65535 restarts, restart offsets strictly increasing inside the entry area, block shorter than 2^24) is established by newBlockWriter and kept by add/registerRestart, a "
+         "refused add leaves the block unchanged; finish writes the block length into the header, every restart offset as 3 bytes and the restart count as 2 bytes, "
+         "exactly (no truncation); Writer.add returns only for a key strictly greater than the previous one and keeps the writer invariant, flushBlock ends the "
+         "block under construction; AddLog hands a reflog tombstone on as a tombstone and changes nothing but the message."),
+   note=(TRUST + " Assumed: the value encoders of the four record types stay inside the buffer they are given (interface contract, not yet verified); in-memory zlib "
+         "compression does not fail; finishSection/finishPublicSection, dumpObjectIndex, Writer.Close, AddRef, paddedWriter.Write and headerBytes are trusted. Not decided: "
+         "everything at table level - header/footer/CRC, section positions, padding bytes, index entries at every level (pinned-tree defects F2/F3 of section 5 "
+         "live there and are not reported), object index (F19), keys across blocks of an index, update indices inside the header range, and agreement with an "
+         "independent decoder."),
+   design="4/C14 (layers L1, L2, L4 only)", technique="contract-based deductive verification: representation invariant of the block writer, exact-layout postconditions, field-width preconditions")
+
 NOT_APPLICABLE = {
  "C15": "relational property of two programs in two languages; no deductive verifier for C is installed and rtv reads Go SSA only (DESIGN.md section 4/C15)",
 }
